@@ -22,12 +22,12 @@ CHECKS = {
             "All interleavings (no preemption bound) of producers/consumers/releasers/shutdown over the real EbSystemResourceManager.c for every harness size up to 3 objects x 2 producers x 2 consumers x 2 operations; monitors check single holder, conservation, posting order, no lost wake-up, live_count/release_enable semantics, shutdown wake-up, deadlock freedom on every step.",
             "scheduling granularity = SVT mutex/semaphore operations; 64-bit state hash; small scopes", "4/C23"),
     "C04": ("sched (delay-bounded) + encdrv", "model_checking",
-            "stateless model checking of the whole encoder under a controlled serialising scheduler: exhaustive enumeration of all schedules with <= d delays",
-            "Every schedule with at most 1 delay (thorough: 2 on the smallest session) of complete encode sessions (lp 1/2/4, 1-3 frames) is executed on the real library; each must terminate and yield byte-identical packets and recon.",
-            "atomicity between SVT synchronisation calls; sessions <= 192x128, <= 3 frames, <= 4 logical processors; delay bound", "4/C04"),
+            "stateless model checking of the whole encoder under a controlled serialising scheduler: exhaustive enumeration of all schedules with <= d delays and of all schedules with one stall point (the thread running at a decision point becomes arbitrarily slow from there on)",
+            "Every schedule with at most 1 delay (thorough: 2 on the smallest session) and every one-stall schedule of complete encode sessions (lp 1/2/4, 1-3 frames; thorough adds a preset-6 5-picture session) is executed on the real library; each must terminate and yield byte-identical packets and recon.",
+            "atomicity between SVT synchronisation calls (mutex release included); sessions <= 192x128, <= 5 frames, <= 4 logical processors; delay bound 1, stall bound 1", "4/C04"),
     "C24": ("sched (explicit-state) + seg_h + hook H2", "model_checking",
             "exhaustive enumeration of picture sizes x segment grids on the real initialiser and protocol; explicit-state exploration of all worker interleavings; trace conformance of the model with real encodes",
-            "All picture sizes up to 24x16 (thorough 65x34) superblocks x all segment grids run the real enc_dec_segments_init and a complete one-worker run of the real assign_enc_dec_segments; all interleavings of 2-3 workers are explored for pictures up to 3x3 (thorough 4x3); the traversal rule is validated against kernel traces of real encodes.",
+            "All picture sizes up to 24x16 (thorough 65x34) superblocks x all requested segment grids (up to 2 beyond the picture in each direction) run the real enc_dec_segments_init and a complete one-worker run of the real assign_enc_dec_segments; all interleavings of 2-3 workers are explored for pictures up to 3x3 (thorough 4x3); the traversal rule is validated against kernel traces of real encodes.",
             "traversal rule transcribed from mode_decision_kernel (bound by hook-H2 trace conformance); small scopes for (b)", "4/C24"),
     "C03": ("encdrv under sched + refdec", "model_checking",
             "exhaustive enumeration of call histories (send N, EOS, drain) for all N in a range x GOP-shape cross product, each executed on the real library under the controlled scheduler; quiescence decides end of output",
@@ -36,7 +36,7 @@ CHECKS = {
     "C05": ("encdrv under sched", "exploration",
             "exhaustive cross product of logical_processors / unpin / target_socket values x size x content x preset x tiling x bit depth; differential oracle against the logical_processors=1 session",
             "Every listed tuple is encoded for all 8 logical-processor classes and the pinning/socket combinations under the controlled scheduler's canonical schedule; packets and recon must be byte-identical to the lp=1 run.",
-            "single-socket host; sizes <= 256x192; canonical schedule (schedule independence is C04)", "4/C05"),
+            "single-socket host; sizes <= 256x192 plus one picture per thread-count dependent segment-grid class (>= 608 wide, >= 352 tall); canonical schedule (schedule independence is C04)", "4/C05"),
     "C06": ("encdrv", "exploration",
             "exhaustive cross product of instruction-set levels x content x bit depth x pipeline x preset (x tool deviations); differential oracle against the C-only session",
             "Every listed tuple is encoded with use_cpu_flags limited to C, SSE2, SSSE3, SSE4.1, AVX2 and ALL; packets and recon must be byte-identical to the C-only run.",
@@ -46,12 +46,12 @@ CHECKS = {
             "Every configuration within deviation bound 1 of the base plus extreme picture shapes, qp 0/63 and all contents is encoded under ASan+UBSan; any sanitizer report, error packet, deadlock, watchdog overrun or teardown error is a violation keyed by (kind, function / configuration class).",
             "UBSan restricted to arithmetic UB with observable effect; sizes <= 4096x64 / 64x2160 (4096x2160 thorough)", "4/C11"),
     "C27": ("encdrv under sched", "model_checking",
-            "exhaustive enumeration of application call patterns (all 2^N drain/skip patterns for small N, bounded departures for larger N) x configurations x drain modes x scheduler priority policies on the real library",
-            "All 2^N pacing patterns for N<=5 (6 thorough) and all patterns with <=2 departures from always-drain / k-periodic / end-only for N=9 (17, 24 thorough) are executed under the controlled scheduler; always-drain must complete, every completing pattern must give identical packets and recon.",
+            "exhaustive enumeration of application call patterns (all 2^N drain/skip patterns for small N, bounded departures for larger N) x configurations x drain modes x scheduler priority policies on the real library; plus every schedule in which the application thread is arbitrarily slow from one of its own decision points",
+            "All 2^N pacing patterns for N<=5 (6 thorough) and all patterns with <=2 departures from always-drain / k-periodic / end-only for N=9 (17, 24 thorough) are executed under the controlled scheduler; always-drain must complete, every completing pattern must give identical packets and recon; every application-thread stall point of a 26-picture never-drain session must give the canonical output.",
             "quiescence-based definition of 'currently available'; 64x64; canonical schedules of two priority policies", "4/C27"),
     "C09": ("decdrv under sched + hook H1", "model_checking",
-            "stateless model checking of the multi-threaded decoder under the controlled scheduler (busy-wait loops and progress stores hooked): all schedules with <= 1 delay (2 thorough) for 2-4 threads; canonical/mirrored schedules up to 16 threads under ASan+UBSan",
-            "Every schedule with at most one delay of complete decode sessions (threads 2,3,(4)) on tiled / superres / SB128 / 10-bit / hierarchical streams is executed; pictures must equal the single-thread decode, no deadlock/livelock/crash, teardown must return.",
+            "stateless model checking of the multi-threaded decoder under the controlled scheduler (busy-wait loops and progress stores hooked): all schedules with <= 1 delay (2 thorough) and all schedules with one stall point for 2-4 threads; canonical/mirrored schedules up to 16 threads under ASan+UBSan",
+            "Every schedule with at most one delay and every one-stall schedule of complete decode sessions (threads 2,3,(4)) on tiled / superres / SB128 / 10-bit / hierarchical streams is executed; pictures must equal the single-thread decode, no deadlock/livelock/crash, teardown must return.",
             "volatile-flag handshakes assumed acquire/release (x86); data races not decided (no TSan pass in this tier); encoder-produced streams <= 256x256", "4/C09"),
     "C12": ("param_set_h + documentation model", "exploration",
             "bounded-exhaustive enumeration of configuration deviations (every value min-2..max+2 of each documented range, all pairs inside documented coupling groups; thorough: all field pairs over boundary values) against a reference model transcribed from the documentation",
@@ -62,12 +62,12 @@ CHECKS = {
             "Field-by-field equality of the returned structure (padding excluded, table completeness checked at run time), set_parameter acceptance and identical packets of a 5-picture encode for every prior content.",
             "one element poisoned at a time or uniform fills, not arbitrary combinations; 64x64 clip, logical_processors 1", "4/C13"),
     "C14": ("api_h (asan) + BFS", "model_checking",
-            "explicit-state breadth-first search over API call histories; transition function = the real API replayed in a fresh ASan process; NULL-argument calls in every protocol state followed by normal completion of the session",
-            "All protocol states reachable with <= 2 pictures (encoder) / <= 2 temporal units (decoder) are explored; in each, every NULL-handle / NULL-buffer call and every protocol-legal call is executed; no crash, error code for NULL arguments, rejected configuration leaves the handle usable, no blocking except the owed blocking get_packet.",
+            "explicit-state breadth-first search over API call histories; transition function = the real API replayed in a fresh ASan process; NULL-argument calls in every protocol state followed by normal completion of the session; exhaustive reject sweep: every configuration element x a value menu (plus grouped count deviations), each rejected configuration followed by a valid set_parameter on the same handle",
+            "All protocol states reachable with <= 2 pictures (encoder) / <= 2 temporal units (decoder) are explored; in each, every NULL-handle / NULL-buffer call and every protocol-legal call is executed; no crash, error code for NULL arguments, rejected configuration leaves the handle usable (for every element of the configuration structure), a packet may be released twice, no blocking except the owed blocking get_packet.",
             "out-of-order calls with valid pointers are not explored (not demanded); free-running library threads inside each call", "4/C14"),
     "C10": ("decfuzz_h (asan)", "exploration",
-            "mutation-bounded exhaustive enumeration of decoder inputs (every truncation, bit flip, byte substitution, OBU-level edit, size-field edit and splice of valid seed streams; all short byte strings) executed on the real decoder under ASan+UBSan with in-process fault capture",
-            "Every input within mutation distance 1 of each seed stream, in both framings and both protocols (corrupt unit last / valid units follow), is decoded by a fresh decoder instance followed by teardown; any fault, sanitizer report, hang or teardown failure is a violation keyed by (kind, function).",
+            "mutation-bounded exhaustive enumeration of decoder inputs (every truncation, bit flip, byte substitution, OBU-level edit, size-field edit and splice of valid seed streams; all short byte strings) executed on the real decoder under ASan+UBSan with in-process fault capture, every input in an exactly sized allocation",
+            "Every input within mutation distance 1 of each seed stream, in three framings (low-overhead with is_annexb 0 / 1, converted to Annex-B units) and both protocols (corrupt unit last / valid units follow), is decoded by a fresh decoder instance followed by teardown; any fault, sanitizer report, hang or teardown failure is a violation keyed by (kind, function).",
             "SVT-encoded seeds only (3 quick, 5 thorough); mutation distance 1; single-threaded decoder", "4/C10"),
     "C16": ("faultinj_h (asan+lsan)", "fault_enumeration",
             "exhaustive single-fault enumeration: for every k, fail exactly the k-th allocation / OS-object creation made by library code during session set-up (link-time interposition), in a forked ASan+LSan child",
@@ -75,8 +75,8 @@ CHECKS = {
             "single faults only; encoder 64x64 lp 1 without pictures; faults in calls made from libc itself are not modelled", "4/C16"),
     "C15": ("encdrv/decdrv (asan+lsan) under sched", "model_checking",
             "exhaustive enumeration of teardown points (call-history prefixes: after handle creation, rejected/accepted configuration, init, k pictures with/without draining, EOS, partial and full drain) x configurations, each executed on the real library under the controlled scheduler with LeakSanitizer",
-            "Every teardown point of the alphabet is executed; deinit and deinit_handle must return (a teardown that blocks is a detected deadlock), no thread may remain, LeakSanitizer must report nothing, and 5 create/encode/destroy cycles must not increase the exact live-heap byte count.",
-            "canonical schedule; 64x64/128x128 sessions with <= 19 pictures; decoder sessions with 1 and 3 threads", "4/C15"),
+            "Every teardown point of the alphabet is executed; deinit and deinit_handle must return (a teardown that blocks is a detected deadlock), every thread the library created must have been joined (exact count kept by the scheduler), LeakSanitizer must report nothing, and 5 create/encode/destroy cycles must not increase the exact live-heap byte count.",
+            "canonical schedule; 64x64/128x128 sessions with <= 19 pictures; one configuration per core-count class (1, 2-3, >= 4) and per tool-specific buffer family; decoder sessions with 1 and 3 threads", "4/C15"),
     "C07": ("kern_gen + kern_h (per-signature-class drivers)", "exploration",
             "generator parses the SET_* dispatch entries and prototypes of the current tree into a C table; per-signature-class drivers call the C function and every SIMD variant in the build over an exhaustively enumerated argument alphabet (block sizes, strides, bit depths, every value of small scalar parameters, pixel/coefficient pattern alphabet, complete {min,max}^n cubes for inputs of <= 16 samples); outputs poisoned and compared over the whole allocation",
             "Every dispatch pointer with a SIMD variant in the library build (767 of 780; 799 kernel/variant pairs) is compared bit-exactly with its C reference on every tuple of its driver's stated alphabet (38M calls quick, 139M thorough), restricted to the domain the library's call sites can pass; C-only pointers and AVX-512 variants are listed and not run.",
@@ -99,7 +99,7 @@ CHECKS = {
             "sequence-header enable flags not demanded; portrait sizes not inspectable (SVT decoder crash); intrabc only with screen_content_mode 1; 8-bit", "4/C20"),
     "C17": ("multi_h under sched", "model_checking",
             "exhaustive enumeration of all C(14,7)=3432 interleavings of two 7-step API session scripts (two instances in one process, both static libraries linked together) executed on the real libraries under the controlled scheduler; differential oracle against each instance's solo run",
-            "For each instance pair (encoder/encoder with different configurations, decoder/decoder, encoder/decoder) every interleaving of the two scripts at API-call granularity is executed; both instances must return success everywhere and produce exactly their solo output; no crash or deadlock.",
+            "For each instance pair (encoder/encoder with different configurations, decoder/decoder, encoder/decoder) every interleaving of the two scripts at API-call granularity is executed (16 block-structured interleavings for the pairs that differ in one configuration dimension); both instances must return success everywhere and produce exactly their solo output; no crash or deadlock.",
             "API calls of the two instances are serialised (one application thread), overlapping calls are not explored; shared unsynchronised state is decided by its observable effect, not by a race detector", "4/C17"),
     "C08": ("encdrv + decdrv + refdec", "exploration",
             "bounded-exhaustive enumeration of SVT-encoded streams (configuration deviation bound 1 x sizes x contents x lengths); differential oracle: SVT decoder (both pipeline bit depths) vs libaom and dav1d, picture by picture",
